@@ -20,8 +20,8 @@ CLAIMED = {
 
 CLAIMED.update({
     "C01": dict(
-        text="Proved in Coq over exact rationals: the uniform split computed by the model's average_port_pressure is a feasible fractional assignment with slack 0, and every feasible split is non-negative, supported on admissible ports, adds up to the micro-ops' cycles and satisfies Hall's condition for every port set; proved for ANY numeric instance (binary64 included), any kernel context and any number of passes: balancing changes only cells of ports the micro-op may use (support) and keeps lengths; totals ignore zero-throughput lines; on a second bounded family (3192 kernels of length <= 2 over all forms with one or two 1-cycle micro-ops on subsets of 3 ports, complete for its shape) the bit-exact binary64 model is exactly feasible under uniform scheduling and, after ONE pass, satisfies non-negativity / support / total / Hall for every port set within 0.005 per (micro-op, port) pair (finite sweep, exact comparisons; the family is replayed on the implementation). The second CLI pass is refuted on the bit-exact model (witness replayed on the code = known finding; 798 of the 3192 family kernels). The granular Hall bound for ONE optimised pass is not proved; it is decided by the bit-exact correspondence (binary64 model = implementation on every pressure cell, synthetic port models + shipped kernels x models) plus the exact-fraction Hall/total/support oracle on the implementation's outputs.",
-        note="Trusted: Coq kernel, vm_compute, primitive floats/ints; Model/Num.v's CPython round()/sum() algorithms (validated against CPython each run); the hand model Model/Pressure.v is tied to the code only by differential correspondence; exact-arithmetic theorems transfer to doubles up to rounding. Partial: one-pass feasibility within 0.005 per (micro-op, port) pair is checked, not proved.",
+        text="Proved in Coq over exact rationals: the uniform split computed by the model's average_port_pressure is a feasible fractional assignment with slack 0, and every feasible split is non-negative, supported on admissible ports, adds up to the micro-ops' cycles and satisfies Hall's condition for every port set; proved for ANY numeric instance (binary64 included), any kernel context and any number of passes: balancing changes only cells of ports the micro-op may use (support) and keeps lengths; totals ignore zero-throughput lines; on a second bounded family (3192 kernels of length <= 2 over all forms with one or two 1-cycle micro-ops on subsets of 3 ports, complete for its shape) the bit-exact binary64 model is exactly feasible under uniform scheduling and, after ONE pass, satisfies non-negativity / support / total / Hall for every port set within 0.005 per (micro-op, port) pair (finite sweep, exact comparisons; the family is replayed on the implementation). The second CLI pass is refuted on the bit-exact model (witness replayed on the code = known finding; 798 of the 3192 family kernels). For an instruction with a SINGLE micro-op (any cycle count, any port subset, any kernel context, any junk in the differences vector) whose uniform share exceeds 0.005, the balancing loop over exact rationals is proved to preserve the row total exactly, keep every admissible cell >= 0 and leave every other cell untouched, so the result is feasible with slack 0 (Proofs/BalanceSingle.v: rounding characterisation of round(x,2), per-rule and per-step invariants, induction over the loop). The granular Hall bound for ONE optimised pass of multi-micro-op instructions is not proved in general; it is decided by the bit-exact correspondence (binary64 model = implementation on every pressure cell, synthetic port models + shipped kernels x models) plus the exact-fraction Hall/total/support oracle on the implementation's outputs.",
+        note="Trusted: Coq kernel, vm_compute, primitive floats/ints; Model/Num.v's CPython round()/sum() algorithms (validated against CPython each run); the hand model Model/Pressure.v is tied to the code only by differential correspondence; exact-arithmetic theorems transfer to doubles up to rounding. Partial: one-pass feasibility within 0.005 per (micro-op, port) pair is proved for single-micro-op instructions over Q and on the bounded family for binary64; for arbitrary multi-micro-op instructions it is checked, not proved.",
         technique="Coq proofs (feasible-flow algebra over Q, frame induction over the balancer generic in NumOps) + bit-exact differential correspondence of a binary64 Gallina model",
         ref="DESIGN.md C01"),
     "C02": dict(
@@ -68,8 +68,8 @@ CLAIMED.update({
         technique="Coq proof (DP upper bound by induction over program order) + per-case certificate checking in Coq",
         ref="DESIGN.md C04"),
     "C05": dict(
-        text="Proved in Coq: the path enumeration of the model is sound and complete for the dependency paths of the doubled kernel; the reported set is by definition the first-kept de-duplication of the entries of ALL paths from an instruction to its next-iteration copy; de-duplication reports only input entries, represents every one, and each class of equal sorted (line, latency) lists exactly once. Tied to get_loopcarried_dependencies() bit for bit (keys, members, latencies); an independent enumeration of winding-number-1 cycles over the reference RAW relation of two iterations is the search (register-only kernels). The line-number collision beyond line 1000 was fixed in /repo.",
-        note="Trusted: Coq kernel; networkx all_simple_paths not modelled (result compared); the declarative statement 'cycle of the infinite stream' is the oracle's, the theorem is about paths of the doubled-kernel graph.",
+        text="Proved in Coq: the path enumeration of the model is sound and complete for the dependency paths of the doubled kernel; the reported set is by definition the first-kept de-duplication of the entries of ALL paths from an instruction to its next-iteration copy; de-duplication reports only input entries, represents every one, and each class of equal sorted (line, latency) lists exactly once. Declarative form (Proofs/StreamCycles.v): with canonical line numbers every edge of the doubled-kernel graph is a read-after-write edge of the infinite periodic instruction stream (exists iff the scan reports it; producer before consumer, no writer between), every enumerated LCD path is a stream path from instruction i of one iteration to instruction i of the next, and conversely every such stream cycle of winding number one is enumerated and represented in the report. Tied to get_loopcarried_dependencies() bit for bit (keys, members, latencies); an independent enumeration of winding-number-1 cycles over the reference RAW relation of two iterations is the search (register-only kernels). The line-number collision beyond line 1000 was fixed in /repo.",
+        note="Trusted: Coq kernel; networkx all_simple_paths not modelled (result compared); the stream theorems assume canonical line numbers (the harness numbers lines that way; the >1000-lines collision was the fixed defect).",
         technique="Coq proofs (path enumeration soundness/completeness, de-duplication algebra) + bit-exact correspondence + independent cycle enumeration",
         ref="DESIGN.md C05"),
     "C06": dict(
@@ -88,7 +88,7 @@ CLAIMED.update({
         technique="Coq proofs (partition cover, permutation invariance) over translated arithmetic + replay of real multi-process runs",
         ref="DESIGN.md C16, notes/C16.md"),
     "C19": dict(
-        text="Coq model of the partial-result post-processing and of the poll loop as a state machine over abstract time. Proved: every entry reported from a subset of the paths is an entry of the full result (under the key-injectivity the data satisfy, refuted without it); the loop terminates within the timeout plus one poll; complete result and no flag when untimed or finished in time; flag iff the loop was exhausted; every worker is killed-or-joined. The edge cases where the flag is set without a cut and the untimed sequential branch are refuted in the model and observed on the code (known findings). Real runs: wall-time bound, flag vs SIGKILL, subset of the untimed result, TP/CP unchanged, no child left.",
+        text="Coq model of the partial-result post-processing and of the poll loop as a state machine over abstract time. Proved: every entry reported from a subset of the paths is an entry of the full result (under the key-injectivity the data satisfy, refuted without it); the loop terminates within the timeout plus one poll; complete result and no flag when untimed or finished in time; for the shipped loop: flag iff the loop was exhausted (refuted as a statement about cuts: flag without any kill -- the defect fixed in /repo by ea2415a); for the repaired loop (FlagOnKill model, what the code does now): flag iff some worker was killed, no flag implies the complete result, every worker finished implies no flag, timeout 0 flags only live workers; every worker is killed-or-joined. The untimed sequential branch is refuted in the model and observed on the code (known finding). Real runs: wall-time bound, flag vs SIGKILL, subset of the untimed result, TP/CP unchanged, no child left.",
         note="Trusted: Coq kernel; wall-clock time, signal delivery and reaping are observed, not proved.",
         technique="Coq state-machine proofs + trace replay of instrumented real runs",
         ref="DESIGN.md C19, notes/C19.md"),
